@@ -5,7 +5,7 @@ pub fn generate(prop: &str, thorough: bool, rng: &mut Rng) -> Case {
     match prop {
         "C02" | "C05" | "C11" | "C13" | "C16" | "C18" => crate::memgen::generate(prop, thorough, rng),
         "C06" | "C17" => crate::memgen::generate(prop, thorough, rng),
-        "C01" | "C03" | "C04" | "C07" | "C08" | "C10" | "C12" | "C15" => crate::hybgen::generate(prop, thorough, rng),
+        "C01" | "C03" | "C04" | "C07" | "C08" | "C09" | "C10" | "C12" | "C15" => crate::hybgen::generate(prop, thorough, rng),
         other => panic!("fsim: no generator for {other}"),
     }
 }
@@ -17,6 +17,7 @@ pub fn expected_probes(prop: &str) -> Vec<&'static str> {
         "C12" => vec!["c12_written_version_checked", "c12_licence_with_barrier", "c12_ondisk_checked", "c12_held_fetch_blocked", "c12_young_eviction_no_licence", "loaded_age_old"],
         "C15" => vec!["c15_resident_checked"],
         "C07" => vec!["c07_checkpoint", "c07_block_compared", "c07_claimed_key_loaded", "c07_recovered_key_checked", "block_cleaned", "shed_larger_than_max_entry"],
+        "C09" => vec!["c09_clean", "c09_data_write_checked", "c09_fifo_pair", "c09_close_returned", "c09_reinsertion_checked", "served_from_disk"],
         "C08" => vec!["c08_lookup", "c08_loaded_from_disk", "c08_loaded_from_write_queue", "c08_header_checked", "c08_rejected_as_a_whole", "shed_buffer_size_limit", "shed_larger_than_max_entry"],
         "C03" => vec!["c03_lookup_judged", "c03_lookup_error", "served_from_disk"],
         "C04" => vec!["c04_key_judged", "c04_acked_key_judged", "c04_weak_clause_only"],
